@@ -261,6 +261,51 @@ def _ctor_source(e, init, attr):
     return out
 
 
+def r_env_overlay_kept(e, R):
+    """The process object keeps the caller's env overlay entry for entry (an empty value is a value: CUDA_VISIBLE_DEVICES='')."""
+    pc = e.prog.cls("loky.backend.process:LokyProcess")
+    ini = pc.methods["__init__"]
+    envp = [p_ for p_ in ini.params + ini.kwonly if p_ == "env"]
+    if not envp:
+        raise AnalysisError("LokyProcess.__init__ has no `env` parameter")
+    stores = [n for n in func_nodes(ini) if isinstance(n, ast.Assign) and isinstance(n.targets[0], ast.Attribute) and isinstance(n.targets[0].value, ast.Name)
+              and n.targets[0].value.id == ini.params[0] and any(isinstance(x, ast.Name) and x.id == "env" for x in ast.walk(n.value))]
+    if len(stores) != 1:
+        raise AnalysisError("LokyProcess.__init__: the store of the env overlay is not recognised")
+    v = stores[0].value
+
+    def whole(x):
+        """x evaluates to the overlay itself or a full copy of it (None -> empty)."""
+        if isinstance(x, ast.Name) and x.id == "env":
+            return True
+        if isinstance(x, ast.IfExp):
+            return all(whole(b) or (isinstance(b, ast.Dict) and not b.keys) for b in (x.body, x.orelse))
+        if isinstance(x, ast.BoolOp) and isinstance(x.op, ast.Or):
+            return all(whole(b) or (isinstance(b, ast.Dict) and not b.keys) for b in x.values)
+        if isinstance(x, ast.Call) and norm(x.func) in ("dict", "copy.copy", "copy.deepcopy") and len(x.args) == 1 and not x.keywords:
+            return whole(x.args[0])
+        if isinstance(x, ast.Call) and isinstance(x.func, ast.Attribute) and x.func.attr == "copy" and not x.args:
+            return whole(x.func.value)
+        if isinstance(x, ast.Dict) and x.keys and all(k is None for k in x.keys):
+            return all(whole(val) for val in x.values)
+        return None
+    verdict = whole(v)
+    if verdict is None and isinstance(v, ast.DictComp):
+        gen = v.generators[0] if len(v.generators) == 1 else None
+        src_ok = gen is not None and isinstance(gen.iter, ast.Call) and isinstance(gen.iter.func, ast.Attribute) and gen.iter.func.attr == "items" and whole(gen.iter.func.value)
+        if src_ok:
+            tnames = [t.id for t in ast.walk(gen.target) if isinstance(t, ast.Name)]
+            ident = len(tnames) == 2 and isinstance(v.key, ast.Name) and v.key.id == tnames[0] and isinstance(v.value, ast.Name) and v.value.id == tnames[1]
+            R.check(ident and not gen.ifs, "R-SPAWN-FRESH", "LokyProcess: the env overlay is kept entry for entry", ini.short, norm(v)[:80],
+                    "entries of the env overlay are dropped or rewritten before they reach fork_exec (e.g. a truthiness filter drops `VAR=''`): the worker inherits the "
+                    "parent's value of a variable the caller asked to override", e.loc(ini, v))
+            return
+    if verdict is None:
+        raise AnalysisError(f"LokyProcess.__init__: `{norm(v)[:60]}` is not a recognised way of keeping the env overlay")
+    R.check(bool(verdict), "R-SPAWN-FRESH", "LokyProcess: the env overlay is kept entry for entry", ini.short, norm(v)[:80],
+            "the env overlay is not kept as given", e.loc(ini, v))
+
+
 def r_args(e, R):
     """Positional / role agreement between the spawn site's args tuple and the
     worker main's parameters."""
